@@ -105,9 +105,11 @@ prop("C11", "exploration",
           "columns, orphan rows; non-trivial = at least one audit of a non-empty library; distinct = new plan digest reaching a new "
           "observation hash")
 prop("C02", "exploration",
-     quick=[("tracks_audit", "fast", 1200), ("mixed_audit", "fast", 400), ("foreign", "fast", 800)],
-     thorough=[("tracks_audit", "fast", 60000), ("mixed_audit", "fast", 20000), ("foreign", "fast", 60000)],
-     relevant=["audits", "foreign_read_back"],
+     quick=[("tracks_audit", "fast", 1200), ("mixed_audit", "fast", 400), ("foreign", "fast", 800), ("table_audit", "fast", 700),
+            ("tableh_audit", "fast", 300)],
+     thorough=[("tracks_audit", "fast", 60000), ("mixed_audit", "fast", 20000), ("foreign", "fast", 60000), ("table_audit", "fast", 40000),
+               ("tableh_audit", "fast", 20000)],
+     relevant=["audits", "foreign_read_back", "table_rows_audited"],
      rule="every blob the library stores during the track workloads is read raw by a second SQLite client and decoded by refcodec "
           "(an independent implementation of the Engine layouts): frame (4-byte BE length = inflated length, one complete zlib "
           "stream, loops uncompressed) and every field against the library's own observation; non-trivial = at least one audited "
@@ -378,6 +380,8 @@ class Collector:
         self.per_profile = {}
         self.sim_stmts = 0
         self.sim_vfs = 0
+        self.sim_span = 0
+        self.clock_reads = 0
         self.truncated = 0
         self.schemas = {}
         self.enum = {}
@@ -392,6 +396,8 @@ class Collector:
         self.steps += res.get("steps", 0)
         self.sim_stmts += res.get("stmts", 0)
         self.sim_vfs += res.get("vfs_calls", 0)
+        self.sim_span += res.get("sim_span", 0)
+        self.clock_reads += res.get("clock_reads", 0)
         if res.get("stopped"):
             self.truncated += 1
         for k, v in res.get("probes", {}).items():
@@ -649,6 +655,8 @@ def write_evidence(pid, tier, seed, col, wall, violations, known_hits, samples, 
         "seeds_per_hour": int(col.runs / wall * 3600) if wall > 0 else 0,
         "simulated_sql_statements": col.sim_stmts,
         "simulated_vfs_calls": col.sim_vfs,
+        "simulated_time_covered_s": col.sim_span,
+        "simulated_clock_reads": col.clock_reads,
         "faults_fired": col.faults,
         "op_counts": col.ops,
         "reach_probes": col.probes,
